@@ -153,6 +153,18 @@ def specHash (s : Dep.Spec) : HIn :=
       optStrHash (orNone s.sourceSubdirectory)]
   else .str s.completeName
 
+/-- `clone()` is `copy.copy(self)`: an object with the same attribute values.  The model has no hidden state (the
+code keeps no memo of the hash either; a memo that survives `clone()` is exactly what the derivation pools of the
+harness look for) -/
+def specClone (s : Dep.Spec) : Dep.Spec := s
+
+/-- `with_features(features)`: a clone whose `_features` is `frozenset(canonicalize_name(f) for f in features)` -/
+def specWithFeatures (s : Dep.Spec) (fs : List String) : Dep.Spec :=
+  { specClone s with features := Dep.normFeatures fs }
+
+/-- `without_features()` -/
+def specWithoutFeatures (s : Dep.Spec) : Dep.Spec := specWithFeatures s []
+
 /-- `Dependency.__hash__` is the specification's (the constraint is mutable and left out) -/
 def depHash (d : Dep.Dep) : HIn := specHash d.spec
 
